@@ -87,6 +87,7 @@ fn snippet(op: &Value) -> String {
         "setopt" => format!("set {}o {a}", if b == "on" { "-" } else { "+" }),
         "shopt" => format!("shopt -{} {a}", if b == "on" { "s" } else { "u" }),
         "cd" => format!("cd {}", dir_of(a)),
+        "setoptind" => format!("OPTIND={a}"),
         "pushd" => format!("pushd {} >/dev/null", dir_of(a)),
         "popd" => "popd >/dev/null".to_string(),
         other => tool_error(&format!("unknown op {other}")),
@@ -107,6 +108,7 @@ if declare -F f1 >/dev/null; then __fb=$(declare -f f1); case "$__fb" in *F2*) e
 if __a=$(alias a1 2>/dev/null); then echo "alias a1 ${__a: -2:1}"; else echo "alias a1 0"; fi
 echo "opts $(set +o | grep -E ' (noglob|nounset|pipefail|noclobber)$' | grep -- ' -o ' | sed 's/.* //' | sort | tr '\n' ' ')"
 echo "shopts $(shopt -p extglob nullglob dotglob | grep -- ' -s ' | sed 's/.* //' | sort | tr '\n' ' ')"
+echo "optind $OPTIND"
 echo "cwd ${PWD#"$BASE"}"
 dirs -p -l | tail -n +2 | while IFS= read -r __d; do echo "stack ${__d#"$BASE"}"; done
 unset __pn __pk __pf __kind __ex __val __e __a __d
@@ -125,6 +127,7 @@ fn parse_probe(text: &str) -> Value {
     let mut vars: BTreeMap<String, Value> = BTreeMap::new();
     let mut envs: BTreeMap<String, String> = BTreeMap::new();
     let (mut func, mut alias, mut opts, mut shopts, mut cwd, mut stack) = ("?".to_string(), "?".to_string(), vec![], vec![], "?".to_string(), vec![]);
+    let mut optind = "?".to_string();
     let mut junk = vec![];
     for line in text.lines() {
         let parts: Vec<&str> = line.splitn(5, ' ').collect();
@@ -139,6 +142,7 @@ fn parse_probe(text: &str) -> Value {
             "alias" => alias = line.trim_start_matches("alias a1 ").to_string(),
             "opts" => opts = line.split_whitespace().skip(1).map(|s| s.to_string()).collect(),
             "shopts" => shopts = line.split_whitespace().skip(1).map(|s| s.to_string()).collect(),
+            "optind" => optind = line.trim_start_matches("optind").trim().to_string(),
             "cwd" => cwd = rel_dir(line.trim_start_matches("cwd").trim_start()),
             "stack" => stack.push(rel_dir(line.trim_start_matches("stack").trim_start())),
             _ => junk.push(line.to_string()),
@@ -151,7 +155,7 @@ fn parse_probe(text: &str) -> Value {
         let expect = if v["ex"] == json!(true) && v["kind"] == json!("scalar") { v["val"].as_str().unwrap().to_string() } else { "-".to_string() };
         if e != expect { env_ok = false; }
     }
-    json!({"vars": vars, "funcs": {"f1": func}, "aliases": {"a1": alias}, "opts": opts, "shopts": shopts, "cwd": cwd, "stack": stack,
+    json!({"vars": vars, "funcs": {"f1": func}, "aliases": {"a1": alias}, "opts": opts, "shopts": shopts, "cwd": cwd, "stack": stack, "optind": optind,
            "env_ok": env_ok, "junk": junk})
 }
 
